@@ -935,7 +935,9 @@ func (d *Data) resync(ctx *datastore.VersionedCtx) {
 				binary.LittleEndian.PutUint32(buf, indexMap[i])
 				writerCh <- &storage.TKeyValue{K: NewTypeLabelTKey(i, label), V: buf}
 				writerCh <- &storage.TKeyValue{K: NewTypeSizeLabelTKey(i, indexMap[i], label)}
-				allsyn += indexMap[i]
+				if i == PostSyn || i == PreSyn || i == Gap {
+					allsyn += indexMap[i] // AllSyn only counts synaptic kinds, as in the incremental sync
+				}
 			}
 		}
 		buf := make([]byte, 4)
